@@ -1006,6 +1006,18 @@ func (interp *Interpreter) cfg(root *node, sc *scope, importPath, pkgName string
 					break
 				}
 			}
+			if isShiftNode(n) && isUntypedConst(c0) && !c1.rval.IsValid() {
+				// The shifted constant of a non-constant shift has the type given by the context
+				// to the shift or, without context in a declaration, its default type.
+				t := n.typ
+				if (t.untyped || isInterface(t)) && (n.anc.kind == defineStmt || n.anc.kind == assignStmt) {
+					t = c0.typ.defaultType(reflect.Value{}, sc) // The value has been converted to an integer.
+				}
+				if !t.untyped && !isInterface(t) && !isInt(t.TypeOf()) {
+					err = n.cfgErrorf("invalid operation: shifted operand of type %s must be integer", t.id())
+					break
+				}
+			}
 			if c0.rval.IsValid() && c1.rval.IsValid() && (!isInterface(n.typ)) && constOp[n.action] != nil {
 				n.typ.TypeOf() // Force compute of reflection type.
 				if err = check.constExpr(n); err != nil {
